@@ -310,6 +310,12 @@ def build(spec, rso_mod=None, variant=None):
     # objective
     mode = spec['mode']
     pcs = [expr(e) for e in spec['pieces']]
+    flip = bool(variant.get('flip_obj'))
+    B.obj_sign = -1.0 if flip else 1.0
+    if flip:
+        # min f  ==  -max -f   (maxof <-> minof of the negated pieces)
+        pcs = [-pc for pc in pcs]
+        mode = {'min': 'max', 'max': 'min', 'minmax': 'maxmin', 'maxmin': 'minmax'}[mode]
     if len(pcs) == 1:
         obj = pcs[0]
     else:
@@ -319,13 +325,11 @@ def build(spec, rso_mod=None, variant=None):
         sargs = (dset_constr,)
     elif how == 1:
         sargs = tuple(dset_constr)
-    else:
+    elif how == 2:
         sargs = (tuple(dset_constr[:1]), list(dset_constr[1:]))
-    if mode == 'min':
-        m.minmax(obj, *sargs)
-    elif mode == 'max':
-        m.maxmin(obj, *sargs)
-    elif mode == 'minmax':
+    else:
+        sargs = ((c_ for c_ in dset_constr),)          # a generator
+    if mode in ('min', 'minmax'):
         m.minmax(obj, *sargs)
     else:
         m.maxmin(obj, *sargs)
@@ -335,25 +339,66 @@ def build(spec, rso_mod=None, variant=None):
     # bounds on x and on the rules
     xM, yM = spec['xM'], spec['yM']
     B.user_constr = []
+    xform = variant.get('xbound_form', 0)
     for x in xs:
-        m.st(x <= xM)
-        m.st(x >= -xM)
+        if xform == 0:
+            m.st(x <= xM)
+            m.st(x >= -xM)
+        elif xform == 1:
+            m.st(1 * x <= xM, -1.0 * x <= xM)
+        elif xform == 2:
+            m.st(rso.norm(x, 'inf') <= xM)
+        elif xform == 3:
+            m.st(abs(x) <= xM)
+        else:
+            for i in range(x.size):
+                m.st(x[i] <= xM)
+                m.st(-xM <= x[i])
     for y in ys:
-        m.st(y <= yM)
-        m.st(y >= -yM)
-    for row in spec['rows']:
+        if variant.get('ybound_loop'):
+            for i in range(y.size):
+                m.st(y[i] <= yM)
+                m.st(y[i] >= -yM)
+        else:
+            m.st(y <= yM)
+            m.st(y >= -yM)
+    rows = list(enumerate(spec['rows']))
+    if variant.get('row_order'):
+        rows = [rows[i] for i in np.random.default_rng(variant['row_order']).permutation(
+            len(rows))]
+    rrng = np.random.default_rng(int(variant.get('row_form', 0)) + 12345)
+    for k_, row in rows:
         _hook(variant, 'row')
         lhs = expr(row['e'])
-        if row['sense'] == 'le':
-            c = (lhs <= row['rhs'])
-        elif row['sense'] == 'ge':
-            c = (lhs >= row['rhs'])
-        else:
-            c = (lhs == row['rhs'])
+        rhs = row['rhs']
+        form = int(rrng.integers(4)) if variant.get('row_form') else 0
+        scale = float(np.round(rrng.uniform(0.2, 5.0), 2)) if variant.get('rescale_rows') else 1.0
+        if scale != 1.0:
+            lhs = scale * lhs
+            rhs = scale * rhs
+        sense = row['sense']
+        own = None
         if row.get('set') is not None:
-            c = c.forall(S.build_rsome(row['set'], zpart(spec['nzr']), rng))
-        B.user_constr.append(c)
-        m.st(c)
+            own = lambda: S.build_rsome(row['set'], zpart(spec['nzr']), rng)
+        if sense == 'eq' and variant.get('split_eq'):
+            cs = [lhs <= rhs, lhs >= rhs]
+        elif sense == 'eq':
+            cs = [lhs == rhs] if form % 2 == 0 else [rhs == lhs]
+        else:
+            le = sense == 'le'
+            if form == 0:
+                cs = [lhs <= rhs if le else lhs >= rhs]
+            elif form == 1:
+                cs = [-lhs >= -rhs if le else -lhs <= -rhs]
+            elif form == 2:
+                cs = [rhs >= lhs if le else rhs <= lhs]
+            else:
+                cs = [np.array(rhs) >= lhs if le else np.array(rhs) <= lhs]
+        for c in cs:
+            if own is not None:
+                c = c.forall(own())
+            B.user_constr.append(c)
+            m.st(c)
     return B
 
 
@@ -608,3 +653,90 @@ def pick_solver(formula, rng=None):
 def tol_for(sname, scale=1.0):
     base = 2e-6 if sname in ('def', 'lpg', 'ort', 'grb') else 5e-5
     return base * (1.0 + scale)
+
+
+def build_dro_single(spec, variant=None):
+    """The same declared model written as a single-scenario dro.Model (no expectation
+    information): static variables -> dvar, decision rules -> dvar with affine adaptation."""
+    import rsome as rso
+    from rsome import dro
+    variant = variant or {}
+    rng = np.random.default_rng(spec['spell'] + 99 + int(variant.get('respell', 0)))
+    m = dro.Model()
+    B = Built()
+    B.model = m
+    B.obj_sign = 1.0
+    nx, nz = spec['nx'], spec['nz']
+    xs = [m.dvar(s_) for s_ in spec['xsplit']]
+    zs = [m.rvar(s_) for s_ in spec['zsplit']]
+    ys = [m.dvar(r['n']) for r in spec['rules']]
+    B.xs, B.zs, B.ys = xs, zs, ys
+    zoff = np.concatenate(([0], np.cumsum(spec['zsplit'])))
+    xoff = np.concatenate(([0], np.cumsum(spec['xsplit'])))
+    for r, y in zip(spec['rules'], ys):
+        mask = np.array(r['mask'])
+        for bi, z in enumerate(zs):
+            sub = mask[:, zoff[bi]:zoff[bi + 1]]
+            for i in range(r['n']):
+                for j in range(sub.shape[1]):
+                    if sub[i, j]:
+                        y[i].adapt(z[j])
+    zfull = zs[0] if len(zs) == 1 else rso.concat(zs)
+
+    def zpart(n):
+        if n == nz:
+            return zfull
+        return zs[0][:n] if len(zs) == 1 else zfull[:n]
+
+    def expr(e):
+        a = np.array(e['a'], float)
+        P = np.array(e['P'], float)
+        q = np.array(e['q'], float)
+        terms = []
+        for bi, x in enumerate(xs):
+            ab = a[xoff[bi]:xoff[bi + 1]]
+            if ab.any() or bi == 0:
+                terms.append(ab @ x)
+        for i, b in enumerate(e['b']):
+            b = np.array(b, float)
+            if b.any():
+                terms.append(b @ ys[i])
+        for bi, x in enumerate(xs):
+            for zi, z in enumerate(zs):
+                Pb = P[xoff[bi]:xoff[bi + 1], zoff[zi]:zoff[zi + 1]]
+                if Pb.any():
+                    terms.append(x @ (Pb @ z) if rng.random() < 0.5 else (Pb.T @ x) @ z)
+        for zi, z in enumerate(zs):
+            qb = q[zoff[zi]:zoff[zi + 1]]
+            if qb.any():
+                terms.append(qb @ z)
+        out = terms[0]
+        for t in terms[1:]:
+            out = out + t
+        return out + e['k']
+
+    fset = m.ambiguity()
+    fset.suppset(S.build_rsome(spec['dset'], zfull, rng))
+    mode = spec['mode']
+    pcs = [expr(e) for e in spec['pieces']]
+    if len(pcs) == 1:
+        obj = pcs[0]
+    else:
+        obj = rso.maxof(*pcs) if mode in ('min', 'minmax') else rso.minof(*pcs)
+    if mode in ('min', 'minmax'):
+        m.minsup(obj, fset)
+    else:
+        m.maxinf(obj, fset)
+    xM, yM = spec['xM'], spec['yM']
+    for x in xs:
+        m.st(x <= xM, x >= -xM)
+    for y in ys:
+        m.st(y <= yM, y >= -yM)
+    for row in spec['rows']:
+        lhs = expr(row['e'])
+        c = (lhs <= row['rhs'] if row['sense'] == 'le' else lhs >= row['rhs']
+             if row['sense'] == 'ge' else lhs == row['rhs'])
+        if row.get('set') is not None:
+            c = c.forall(S.build_rsome(row['set'], zpart(spec['nzr']), rng))
+        m.st(c)
+    return B
